@@ -57,6 +57,20 @@ type client struct {
 
 const forgedToken = "00112233445566778899aabbccddeeff"
 
+// forgeVariant turns a token (hex) into one that is never valid: "empty" presents no bytes at all,
+// "prefix" the first half of the token, "longer" the token followed by one more byte.
+func forgeVariant(tok, tag string) string {
+	switch tag {
+	case "empty":
+		return ""
+	case "prefix":
+		return tok[:len(tok)/4*2]
+	case "longer":
+		return tok + "00"
+	}
+	return tok
+}
+
 const clientNodeBase = 100 * 256 // 10.0.100.x are external clients
 
 func usd(v int64) time.Duration { return time.Duration(v) * time.Microsecond }
@@ -612,6 +626,7 @@ func (r *Run) doRaw(c *client, idx int, op *plan.Op, rec *plan.Rec) {
 			rec.Err = "skipped"
 			return
 		}
+		tok = forgeVariant(tok, op.Tag)
 		args = []any{"DM.UNLOCK", dmn, op.Key, tok}
 	case "lease":
 		tok, ok := c.tokens[op.Ref]
@@ -622,6 +637,7 @@ func (r *Run) doRaw(c *client, idx int, op *plan.Op, rec *plan.Rec) {
 			rec.Err = "skipped"
 			return
 		}
+		tok = forgeVariant(tok, op.Tag)
 		args = []any{"DM.PLOCKLEASE", dmn, op.Key, tok, op.Dur}
 	case "destroy":
 		args = []any{"DM.DESTROY", dmn}
